@@ -44,14 +44,24 @@ def r18a(ctx):
     cl = carg[1] if carg[0] == 'local' else None
     # hmac store: chunk.chunk_hash = hmac(chunk.chunk_hash, hmac_key)
     hm = [h for h in a.calls('merklehash::data_hash::DataHash::hmac')
-          if a.arg(h, 0)[0] == 'field' and a.arg(h, 0)[2] == 'chunk_hash' and a.arg(h, 0)[1] == carg and a.arg(h, 1) == ('param', 3, 'hmac_key')]
-    stores = [(b, si) for (b, si, pl, rv) in a.flow.partial.get(cl, []) if [e.get('n') for e in pl['p'] if isinstance(e, dict)] == ['chunk_hash'] and rv is not None
-              and hm and a.rooted_at(a.flow.rvalue(rv, 0), hm[0])]
+          if a.arg(h, 0)[0] == 'field' and a.arg(h, 0)[2] == 'chunk_hash' and a.arg(h, 0)[1] == carg and a.arg(h, 1)[0] == 'param' and a.arg(h, 1)[1] == 3]
+    dflt0 = edges_where(a, lambda op, l, r: op == 'Eq' and l[0] == 'param' and l[1] == 3 and r[0] == 'call' and 'default' in sg(r[1]).lower())
+    stores = []
+    for (b, si, pl, rv) in a.flow.partial.get(cl, []):
+        if [e.get('n') for e in pl['p'] if isinstance(e, dict)] != ['chunk_hash'] or rv is None or not hm:
+            continue
+        # the stored value is the keyed hash — or, when the choice was made before the store (`x = if keyed { h.hmac(k) }
+        # else { h }`), the unchanged hash on the default-key edge only
+        srcs = a.flow.sources(a.flow.rvalue(rv, 0), (b, si))
+        keyed_src = [x for x in srcs if a.rooted_at(x[2], hm[0])]
+        rest = [x for x in srcs if x not in keyed_src]
+        if keyed_src and all(x[2] == ('field', carg, 'chunk_hash') and x[0] is not None and dflt0 and a.cfg.must_pass(x[0], via_edges=dflt0) for x in rest):
+            stores.append((b, si))
     if not ctx.check(len(hm) == 1 and len(stores) == 1, 'R18a', fn, 'hmac', a.loc(hm[0]) if hm else '-', 'chunk.chunk_hash is replaced by hmac(chunk.chunk_hash, export key) (one site)',
                      'cannot find the replacement of the chunk hash by its keyed form'):
         return
     hb = stores[0][0]
-    dflt = edges_where(a, lambda op, l, r: op == 'Eq' and l == ('param', 3, 'hmac_key') and r[0] == 'call' and 'default' in sg(r[1]).lower())
+    dflt = dflt0
     pushes = [p for p in a.calls('alloc::vec::Vec::push') if p in lp[1] and flow.mentions(a.arg(p, 1), lambda z: z[0] == 'call' and sg(z[1]).endswith('truncate_hash') and z[2][0][0] == 'field' and z[2][0][2] == 'chunk_hash' and z[2][0][1] == carg)]
     ctx.check(len(pushes) == 1, 'R18a', fn, 'chunk_lookup.push', '-', 'one chunk lookup push keyed by the chunk variable\'s hash')
     head, blks = lp
@@ -135,16 +145,34 @@ def r18b(ctx):
     ctx.check(len(news) == 1 and flow.mentions(a.arg(news[0], 0), lambda z: z[0] == 'field' and z[2] == 'chunk_hash_hmac_key'), 'R18b', a.path, 'new collection', a.loc(news[0]) if news else '-', 'a new collection is created with that same key')
 
 
+def captures(F, closure_body):
+    """{captured variable name: expression it was captured from, in the enclosing function}"""
+    pb = F.bodies.get(closure_body.get('qparent', ''))
+    if pb is None:
+        return {}
+    pa = an(pb)
+    for b in sorted(pa.cfg.reach0):
+        for st in pa.blocks[b]['s']:
+            r = st.get('r')
+            if r and r['k'] == 'agg' and r.get('ak') == 'closure' and r.get('def') == closure_body['qpath']:
+                return dict(pa.flow.rvalue(r, 0)[3])
+    return {}
+
+
 def r18c(ctx):
     F = ctx.F
     a = an(F.body(LOADC))
+    caps = captures(F, a.body)
+    is_now = lambda z: z[0] == 'upvar' and caps.get(z[1], ('x',))[0] == 'call' and sg(caps[z[1]][1]).endswith('current_timestamp')
+    is_flag = lambda z: z[0] == 'upvar' and caps.get(z[1], ('x',))[0] == 'param' and caps[z[1]][1] == 2
     ps = a.calls('alloc::vec::Vec::push')
-    if ctx.check(len(ps) == 1, 'R18c', LOADC, 'push', '-', 'one push of a loaded shard'):
-        te, fe = bool_edges(a, lambda e: e == ('upvar', 'load_expired'))
-        le = edges_where(a, lambda op, l, r: op == 'Le' and l == ('upvar', 'current_time') and r[0] == 'field' and r[2] == 'shard_key_expiry')
-        ctx.check(bool(te) and bool(le) and a.cfg.must_pass(ps[0], via_edges=te + le), 'R18c', LOADC, 'expiry guard', a.loc(ps[0]), 'a shard is kept only on the load_expired edge or the current_time <= shard_key_expiry edge',
-                  'an expired shard can be loaded')
-        ctx.check(a.arg(ps[0], 1)[0] == 'param', 'R18c', LOADC, 'push.elem', a.loc(ps[0]), 'the pushed shard is the scanned one')
+    if ctx.check(len(ps) >= 1, 'R18c', LOADC, 'push', '-', 'the closure pushes loaded shards'):
+        te, fe = bool_edges(a, is_flag)
+        le = edges_where(a, lambda op, l, r: op == 'Le' and is_now(l) and r[0] == 'field' and r[2] == 'shard_key_expiry')
+        for p_ in ps:
+            ctx.check(bool(te) and bool(le) and a.cfg.must_pass(p_, via_edges=te + le), 'R18c', LOADC, 'expiry guard', a.loc(p_), 'a shard is kept only on the load_expired edge or the current_time <= shard_key_expiry edge',
+                      'an expired shard can be loaded')
+            ctx.check(a.arg(p_, 1)[0] == 'param', 'R18c', LOADC, 'push.elem', a.loc(p_), 'the pushed shard is the scanned one')
     lv = an(F.body('mdb_shard::shard_file_handle::MDBShardFile::load_all_valid'))
     cs = lv.calls('mdb_shard::shard_file_handle::MDBShardFile::load_all')
     ctx.check(len(cs) == 1 and lv.arg(cs[0], 1) == ('const', 0, 'bool'), 'R18c', lv.path, 'load_expired=false', lv.loc(cs[0]) if cs else '-', 'load_all_valid asks for non-expired shards only')
@@ -154,8 +182,11 @@ def r18c(ctx):
     c = an(F.body(CLEANC))
     rm = c.calls('std::fs::remove_file')
     if ctx.check(len(rm) == 1, 'R18c', CLEANC, 'remove_file', '-', 'one deletion site'):
-        le = edges_where(c, lambda op, l, r: op == 'Le' and l[0] == 'call' and sg(l[1]).endswith('saturating_add') and l[2][0][0] == 'field' and l[2][0][2] == 'shard_key_expiry' and l[2][1] == ('upvar', 'expiration_buffer_secs')
-                         and r == ('upvar', 'current_time'))
+        ccaps = captures(F, c.body)
+        c_now = lambda z: z[0] == 'upvar' and ccaps.get(z[1], ('x',))[0] == 'call' and sg(ccaps[z[1]][1]).endswith('current_timestamp')
+        c_buf = lambda z: z[0] == 'upvar' and ccaps.get(z[1], ('x',))[0] == 'param' and ccaps[z[1]][1] == 2
+        le = edges_where(c, lambda op, l, r: op == 'Le' and l[0] == 'call' and sg(l[1]).endswith('saturating_add') and l[2][0][0] == 'field' and l[2][0][2] == 'shard_key_expiry' and c_buf(l[2][1])
+                         and c_now(r))
         ctx.check(bool(le) and c.cfg.must_pass(rm[0], via_edges=le), 'R18c', CLEANC, 'grace guard', c.loc(rm[0]), 'a shard file is deleted only on the shard_key_expiry + grace <= current_time edge',
                   'an expired shard can be deleted before its grace period has passed (or an unexpired one deleted)')
         ctx.check(flow.mentions(c.arg(rm[0], 0), lambda z: z[0] == 'field' and z[2] == 'path'), 'R18c', CLEANC, 'remove.arg', c.loc(rm[0]), 'the deleted file is that shard\'s path')
